@@ -151,6 +151,7 @@ inductive NodeOK : Node → Prop
       (∀ eb, e = some eb → ∀ n ∈ eb, NodeOK n) → NodeOK (.tagIfNotEqual a b t e)
   | tagImport (binds) : NodeOK (.tagImport binds)
   | tagIncludeStatic (ti only pairs) : (∀ p ∈ pairs, ExprOK p.2) → NodeOK (.tagInclude (.static ti) only pairs)
+  | tagIncludeLazy (e ie ref only pairs) : ExprOK e → (∀ p ∈ pairs, ExprOK p.2) → NodeOK (.tagInclude (.lazy e ie ref) only pairs)
   | tagIncludeEmpty (only pairs) : NodeOK (.tagInclude .empty only pairs)
   | tagLorem (c m r p) : NodeOK (.tagLorem c m r p)
   | tagMacro (idx) : NodeOK (.tagMacro idx)
